@@ -249,6 +249,7 @@ def run_property(pid, tier):
     accepted = rejected = 0
     samples = []
     per_family = {}
+    accepted_cases = []
     for fam in fams:
         r = enumerate_family(fam)
         tot_states += r.states
@@ -264,6 +265,8 @@ def run_property(pid, tier):
                 nt += 1
             if c["exp"]["accept"]:
                 accepted += 1
+                if tr.exit == 0:
+                    accepted_cases.append(c)
             else:
                 rejected += 1
             if check_exit_basic(c, tr, v):
@@ -278,6 +281,8 @@ def run_property(pid, tier):
             samples.append({"family": fam, "yaml": concretise.to_yaml(cases[len(cases) // 2]["cfg"]),
                             "expected": cases[len(cases) // 2]["exp"]})
     r3 = run_traces(pid, tier, rng, v)
+    if pid in ("C06", "C07"):
+        r3["runtime_consequences"] = runtime_consequences(pid, tier, accepted_cases, v, rng)
     rt_stats = None
     if pid == "C05":
         # run-time half: instance identities over histories of Get / GetInContext (Container.tla)
@@ -319,6 +324,68 @@ def check_exit_basic(case, tr, v):
     if not tr.reached_validation():
         return v.disagree("validation-not-reached", case, {"stdout": tr.res["stdout"][-1500:]})
     return False
+
+
+def runtime_consequences(pid, tier, accepted_cases, v, rng):
+    """C06 / C07, second half: an ACCEPTED configuration yields a container that never fails with 'does not exist' for a reference
+    written in the configuration, reports no circular dependencies, and whose parameter evaluation terminates (probe watchdog)."""
+    from . import container
+    from .. import probe as probemod
+    limit = 250 if tier == "quick" else 2500
+    cases = list(accepted_cases)
+    rng.shuffle(cases)
+    cases = cases[:limit]
+    if not cases:
+        return {"containers_exercised": 0}
+    rp = container.Replayer("%s-rt" % pid, rng)
+    for c in cases:
+        rp.add_case({"cfg": c["cfg"], "hist": []})
+    entries = rp.generate()
+    good_entries = [e for e in entries if e["source"] is not None]
+    n = 0
+    for bi in range(0, len(good_entries), 250):
+        chunk = good_entries[bi:bi + 250]
+        pb = probemod.Probe(name="probe-%s-rt-%d" % (pid, bi))
+        for e in chunk:
+            pb.add(e["name"], e["source"])
+        good = set(pb.build())
+        scripts = []
+        for e in chunk:
+            if e["name"] not in good:
+                continue
+            cfg = e["cfg"]
+            ops = [{"op": "CircularDeps"}]
+            ops += [{"op": "GetParam", "id": p} for p in sorted(concretise.fix_map(cfg["params"]))]
+            ops += [{"op": "Get", "id": s_} for s_ in sorted(concretise.fix_map(cfg["services"]))]
+            ops += [{"op": "GetTaggedBy", "tag": t} for t in ("t0", "t1", "s1")]
+            scripts.append({"id": len(scripts), "pkg": e["name"], "ops": ops, "_e": e})
+        res = pb.run([{k: x for k, x in s_.items() if k != "_e"} for s_ in scripts])
+        import shutil as _sh
+        _sh.rmtree(pb.dir, ignore_errors=True)
+        for s_ in scripts:
+            rr = res[s_["id"]]
+            e = s_["_e"]
+            if rr.get("timeout"):
+                v.disagree("accepted-container-does-not-terminate", {"yaml": e["yaml"]}, {"ops": s_["ops"][:6]})
+                continue
+            if rr.get("crashed") is not None or rr.get("err"):
+                v.disagree("accepted-container-crashes", {"yaml": e["yaml"]}, {k: rr.get(k) for k in ("crashed", "err", "stderr")})
+                continue
+            n += 1
+            for op, o in zip(s_["ops"], rr["res"]):
+                err = o.get("err", "") if isinstance(o.get("err", ""), str) else ""
+                if "panic" in o:
+                    v.disagree("accepted-container-panics", {"yaml": e["yaml"]}, {"op": op, "panic": o["panic"][:300]})
+                    break
+                if pid == "C07" and (op["op"] == "CircularDeps" and "err" in o or "circular dependencies" in err):
+                    v.disagree("accepted-container-reports-circular-dependencies", {"yaml": e["yaml"]}, {"op": op, "error": err[:400]})
+                    break
+                if pid == "C06" and "does not exist" in err:
+                    v.disagree("accepted-container-fails-with-does-not-exist", {"yaml": e["yaml"]}, {"op": op, "error": err[:400]})
+                    break
+    import shutil as _sh2
+    _sh2.rmtree(rp.wd, ignore_errors=True)
+    return {"containers_exercised": n, "unobservable": rp.unobservable}
 
 
 def run_traces(pid, tier, rng, v):
